@@ -647,6 +647,9 @@ func (ex *Exec) callBuiltin(fr *frame, b *ssa.Builtin, args []Value, site ssa.In
 	case "cap":
 		switch x := args[0].(type) {
 		case Slice:
+			if ob, ok := x.abs.(*OpaqueBuf); ok {
+				return ob.cap
+			}
 			return tc.BV(uint64(len(x.a)), 64)
 		case Array:
 			return tc.BV(uint64(len(x)), 64)
